@@ -88,6 +88,20 @@ mutual
     | f, c :: rest => balance lang f c :: balanceL lang f rest
 end
 
+/-- What a parent's summary reads of a child: padding, size, symbol, the extra / visible / named /
+MISSING flags, error cost, visible / named child counts, descendant count, whether it has children. -/
+def face (c : Tree) : Length × Length × Nat × Bool × Bool × Bool × Bool × Nat × Nat × Nat × Nat × Bool :=
+  (c.data.padding, c.data.size, c.data.symbol, c.data.extra, c.data.visible, (c.data.visible && c.data.named), c.data.isMissing,
+   c.data.errorCost, c.data.visibleChildCount, c.data.namedChildCount, c.data.visibleDescendantCount, decide (c.kids.length = 0))
+
+/-- `face a = face b`, decided componentwise (for the driver). -/
+def faceEq (a b : Tree) : Bool :=
+  decide (a.data.padding = b.data.padding) && decide (a.data.size = b.data.size) && a.data.symbol == b.data.symbol &&
+  a.data.extra == b.data.extra && a.data.visible == b.data.visible && (a.data.visible && a.data.named) == (b.data.visible && b.data.named) &&
+  a.data.isMissing == b.data.isMissing && a.data.errorCost == b.data.errorCost && a.data.visibleChildCount == b.data.visibleChildCount &&
+  a.data.namedChildCount == b.data.namedChildCount && a.data.visibleDescendantCount == b.data.visibleDescendantCount &&
+  (decide (a.kids.length = 0) == decide (b.kids.length = 0))
+
 /-! ## The hypothesis of `balance_summarized` (decidable; evaluated on every real rebalancing case) -/
 
 /-- The production aliases nothing. -/
@@ -130,6 +144,24 @@ mutual
   def balanceOKL (lang : Lang) : Nat → List Tree → Bool
     | _, [] => true
     | f, c :: rest => balanceOK lang f c && balanceOKL lang f rest
+end
+
+mutual
+  /-- Why `allSym` fails (for the evidence): numbers of inner nodes of the symbol that are visible,
+  extra, MISSING, or whose production has aliases. -/
+  def rotWhy (lang : Lang) (sym : Nat) : Tree → Nat × Nat × Nat × Nat
+    | .mk d kids =>
+      let r := rotWhyL lang sym kids
+      if d.symbol == sym && !kids.isEmpty then
+        (r.1 + (if d.visible then 1 else 0), r.2.1 + (if d.extra then 1 else 0), r.2.2.1 + (if d.isMissing then 1 else 0),
+         r.2.2.2 + (if aliasFree lang d.productionId then 0 else 1))
+      else r
+  def rotWhyL (lang : Lang) (sym : Nat) : List Tree → Nat × Nat × Nat × Nat
+    | [] => (0, 0, 0, 0)
+    | c :: rest =>
+      let a := rotWhy lang sym c
+      let b := rotWhyL lang sym rest
+      (a.1 + b.1, a.2.1 + b.2.1, a.2.2.1 + b.2.2.1, a.2.2.2 + b.2.2.2)
 end
 
 /-! ## The leaf sequence -/
